@@ -428,4 +428,42 @@ def rule_st7(ctx: Ctx) -> RuleResult:
     return r
 
 
-RULES = [rule_st1, rule_st2_3_4, rule_st5, rule_st6, rule_st7, rule_wc1]
+def rule_st8(ctx: Ctx) -> RuleResult:
+    """Every store operation of a mux handler names a state id first and a key second: the state argument is never taken
+    from the event, the key argument is (derived from) the event's key and never a state id."""
+    r = RuleResult("ST-8", "every store call of a mux handler passes (state id, key ...): the state id does not come from the event, the key does")
+    classes = classify_sites(ctx)
+    for site, cls in classes.items():
+        if cls in ("cast", "root", "demux", "sources", "probe-drop"):
+            continue
+        for spec in site.handler_specs("on_next"):
+            svars = state_vars(ctx, spec)
+            if not svars:
+                continue
+            r.instances += 1
+            seen = set()
+            for kind, cfg, paths in ctx.all_paths(spec, kinds=("Create", "Next", "Completed", "Error")):
+                for p in paths:
+                    r.paths += 1
+                    for e in p.trace:
+                        if e.k != "store" or e.state is None:
+                            continue
+                        sig = (id(e.node), kind)
+                        if sig in seen:
+                            continue
+                        seen.add(sig)
+                        r.groups.add((spec.qualname, e.op, len(r.groups)))
+                        st_from_event = any(x == EV for x in subterms(e.state))
+                        key_is_state = e.key is not None and (e.key[0] == "stateid" or (e.key[0] == "free" and e.key[1] in svars))
+                        key_from_event = e.key is None or any(x == EV for x in subterms(e.key)) or e.op == "clear"
+                        ok = not st_from_event and not key_is_state and key_from_event
+                        r.ob(ok, lambda e=e, kind=kind, cfg=cfg, p=p: mk_finding(
+                            "ST-8", spec, kind, cfg, p,
+                            "%s is called with state = %s and key = %s: the first argument must be the state id created in the Probe branch and the second "
+                            "the key of the event (the call fails, or addresses another state, when such an event arrives)" % (
+                                e.op, show(e.state), show(e.key) if e.key is not None else None), node=e.node, extra="args"))
+    r.require_instances(ctx.scaled(12))
+    return r
+
+
+RULES = [rule_st1, rule_st2_3_4, rule_st5, rule_st6, rule_st7, rule_st8, rule_wc1]
